@@ -64,6 +64,16 @@ def programs(tier, seed, small):
                     B.add(mk(ra, rb))
                 B.add({"op": "bin", "name": "mul", "a": ra, "b": rb})
                 progs.append(B.build())
+    # a trace well beyond a thousand constraints (writers that work in blocks must not lose the tail)
+    if small:
+        B = gen.Builder("big/1500", "plain", None, {"op": "big"})
+        rx, ry = B.opnd(("S", 1)), B.opnd(("U", 3))
+        n0 = B.nreg
+        B.add({"op": "bin", "name": "mul", "a": rx, "b": ry})
+        for k in range(1499):
+            B.add({"op": "bin", "name": "mul", "a": {"r": n0 + k}, "b": rx})
+        B.add({"op": "meth", "name": "val", "a": {"r": n0 + 1499}})
+        progs.append(B.build())
     # straight families: one of each operator with mixed signs
     k = 0
     for op in gen.BIN_ARITH + gen.BIN_CMP:
